@@ -79,6 +79,13 @@
 //
 // A tree that does not type-check or a REQUIRED function that is missing is an error (exit 1) unless --allow-missing.
 // The output is deterministic and rewritten only when its content changes.
+// HELPERS WITH A SINGLE CALL SITE (expand.go): an unexported function / method that no theorem names and that is called
+// exactly once (as a statement, the single right-hand side of an assignment or the single result of a return) is examined
+// as part of its caller — on a scratch overlay in which the call is a function literal called in place — and an
+// acquisition inside such a literal is followed in the function around it (rows.go `acquisition`).  Rows therefore do not
+// change when a stretch of a function is extracted into a private helper (resources appended to a result that the caller
+// closes in a deferred block) or when a called literal becomes a method (DB.Close: the releases, their order and the
+// "func literal: <failing exits>" step stay).
 package main
 
 import (
@@ -173,9 +180,17 @@ func main() {
 	build.Default.Dir = repo
 	os.Setenv("GOFLAGS", "-mod=readonly")
 	os.Setenv("GOPROXY", "off")
-	l := &loader{repo: repo, root: root, mod: moduleOf(repo), pkgs: map[string]*types.Package{}, infos: map[string]*types.Info{},
-		files: map[string]map[string]*ast.File{}, decls: map[*types.Func]*helperDecl{}}
-	l.src = importer.ForCompiler(fset, "source", nil).(types.ImporterFrom)
+	newLoader := func(root string) *loader {
+		l := &loader{repo: repo, root: root, mod: moduleOf(repo), pkgs: map[string]*types.Package{}, infos: map[string]*types.Info{},
+			files: map[string]map[string]*ast.File{}, decls: map[*types.Func]*helperDecl{}}
+		l.src = importer.ForCompiler(fset, "source", nil).(types.ImporterFrom)
+		return l
+	}
+	// private helpers with a single call site are examined as part of their caller (expand.go): the analysis runs on a
+	// scratch overlay in which they are function literals called in place
+	root, cleanupExpand := expandHelpers(repo, root, moduleOf(repo), newLoader)
+	defer cleanupExpand()
+	l := newLoader(root)
 	modPath = l.mod
 
 	type unit struct {
